@@ -25,7 +25,19 @@ def main() -> None:
         print(json.dumps(rep, indent=1))
         sys.exit(0)
     chk = Check(a.pid, a.tier, seed)
-    mod.main(chk)
+    try:
+        mod.main(chk)
+    except SystemExit:
+        raise
+    except BaseException as e:  # noqa: BLE001
+        # the harness itself could not run to the end against this tree (an attribute it reads is gone, the code under
+        # test raised where the harness does not expect it, ...): the correspondence between model and code is no longer
+        # checked, which is a verdict (VIOLATION ... no-failing-input-found unless a concrete failure was already
+        # recorded), never a silent crash
+        import traceback
+        tb = traceback.format_exc()
+        chk.broken("correspondence", f"{a.pid} harness aborted: {type(e).__name__}", tb)
+        chk.finish(rule="harness aborted before completing; see the broken correspondence entry")
 
 
 if __name__ == "__main__":
